@@ -26,8 +26,11 @@ def load(selectors=None, prop=None):
 
 def make_copy(dst):
     os.makedirs(dst)
-    subprocess.run(["rsync", "-a", "--exclude", "*.o", "--exclude", "*.lo", "--exclude", ".libs", "--exclude", ".deps", "--exclude", "*.la",
-                    REPO + "/src", dst + "/"], check=True)
+    r = subprocess.run(["rsync", "-a", "--exclude", "*.o", "--exclude", "*.lo", "--exclude", ".libs", "--exclude", ".deps", "--exclude", "*.la",
+                    REPO + "/src", dst + "/"])
+    # 24 = "some source files vanished": a build running in /repo removed a temporary; the sources are complete
+    if r.returncode not in (0, 24):
+        raise RuntimeError("rsync of %s/src failed with %d" % (REPO, r.returncode))
     if os.path.exists(os.path.join(REPO, "config.h")):
         shutil.copy2(os.path.join(REPO, "config.h"), dst)
 
